@@ -90,6 +90,18 @@ func c14Scenario(msize uint32, dotu bool, lengths []int, part string) Scenario {
 				openAs = "ln"
 				os.Remove(filepath.Join(root, openAs))
 				os.Symlink("file", filepath.Join(root, openAs))
+			case strings.Contains(part, "via relative link behind a directory link"):
+				// s -> real/deep ; real/deep/l -> ../file2 : the host reads real/file2, a
+				// resolution by spelling would look for ./file2 (a decoy with other contents)
+				os.RemoveAll(filepath.Join(root, "real"))
+				os.Remove(filepath.Join(root, "s"))
+				os.MkdirAll(filepath.Join(root, "real", "deep"), 0o755)
+				path = filepath.Join(root, "real", "file2")
+				os.WriteFile(path, content, 0o644)
+				os.WriteFile(filepath.Join(root, "file2"), append([]byte("decoy "), content...), 0o644)
+				os.Symlink("../file2", filepath.Join(root, "real", "deep", "l"))
+				os.Symlink("real/deep", filepath.Join(root, "s"))
+				openAs = "s/l" // short names: the Twalk has to fit an msize of 32
 			case strings.Contains(part, "via hard link"):
 				openAs = "hl"
 				os.Remove(filepath.Join(root, openAs))
@@ -701,8 +713,11 @@ func c14Scenarios(tier string) []Scenario {
 			}
 		}
 	}
-	for i, via := range []string{"via symlink", "via hard link"} {
+	for i, via := range []string{"via symlink", "via hard link", "via relative link behind a directory link"} {
 		for _, ms := range []uint32{32, 40} {
+			if i == 2 && ms == 32 {
+				ms = 48 // the Rwalk of a two-element walk (33 bytes) does not fit an msize of 32
+			}
 			u := int(ms) - 24
 			ls := []int{0, 1, 3, 4, 5, u, 2*u + 1, 3*u + 2}
 			out = append(out, c14Scenario(ms, (i+int(ms))%2 == 0, ls, "read "+via), c14Scenario(ms, (i+int(ms))%2 == 1, ls, "write "+via))
@@ -723,7 +738,7 @@ func c14Scenarios(tier string) []Scenario {
 func init() {
 	register(&Property{ID: "C14", Level: "exploration",
 		Technique: "bounded-exhaustive enumeration of (file length, offset, count) triples through the real client and the real Ufs on a scratch tree, compared with the file's bytes on disk",
-		Rule:      "msize {32,40,152} (thorough + 33, 4120, 65560) x dialect x file lengths 0..3u+2 (every length for iounit u=8; boundary lengths 0,1,u-1,u,u+1,2u-1,2u,2u+1,3u+1 otherwise) with position-dependent contents; for small u every offset 0..len+2 x every count 0..2u+1 for Clnt.Read, File.ReadAt, File.Readn, Clnt.Write, File.Written; sequential File.Read / File.Write with every buffer size (those needing more than 4000 round trips for one file are skipped); 8 files interleaved; every sequence of 3 (thorough 4) calls over Read/ReadAt/Readn/Write/WriteAt/Written against a model of contents and offset; the same through a symbolic link and a hard link to the file; host files whose reported size is 0 although they have content (/proc). non-trivial = calls compared",
+		Rule:      "msize {32,40,152} (thorough + 33, 4120, 65560) x dialect x file lengths 0..3u+2 (every length for iounit u=8; boundary lengths 0,1,u-1,u,u+1,2u-1,2u,2u+1,3u+1 otherwise) with position-dependent contents; for small u every offset 0..len+2 x every count 0..2u+1 for Clnt.Read, File.ReadAt, File.Readn, Clnt.Write, File.Written; sequential File.Read / File.Write with every buffer size (those needing more than 4000 round trips for one file are skipped); 8 files interleaved; every sequence of 3 (thorough 4) calls over Read/ReadAt/Readn/Write/WriteAt/Written against a model of contents and offset; the same through a symbolic link, a hard link, and a relative symbolic link reached through a symbolic link to its directory; host files whose reported size is 0 although they have content (/proc). non-trivial = calls compared",
 		Assumptions: []string{"the host file system and package os are the reference", "client and server on the default schedule (data paths are sequential per fid)"},
 		Scenarios:   c14Scenarios, QuickS: 110, ThoroughS: 1200})
 }
